@@ -142,6 +142,15 @@ pub fn run(env: &Env, run: &Run) -> (Stats, Coverage) {
         }
     }));
     st.add("family:decomposition_strings", dfam.len() as u64);
+    // diverse strings: up to 64 different accepted characters of one 64-block
+    let stairs = crate::props::rules::block_staircases(env, crate::subject::Class::Identifier);
+    st.merge(run_family(&stairs, |s, st| {
+        for p in [Prof::Ucm, Prof::Ucp] {
+            check_op(env, p, Op::Prepare, s, st);
+            check_op(env, p, Op::Enforce, s, st);
+        }
+    }));
+    st.add("family:block_staircase_strings", stairs.len() as u64);
     st.sample(json!({"profile": "UsernameCaseMapped", "input": ["U+FF21", "U+212A"], "expected": "Err(BadCodepoint{0x212a, 1, SpecClassDis}) - validation happens after width mapping and before case mapping"}));
     st.sample(json!({"profile": "UsernameCasePreserved", "input": ["U+FF76", "U+FF9E"], "expected": "Ok(U+30AC): width mapping then NFC composes"}));
     st.sample(json!({"profile": "UsernameCaseMapped", "input": ["U+05D0", "a"], "expected": "Err(Invalid) from the directionality rule"}));
